@@ -73,3 +73,12 @@ Print Assumptions C01_marshal_refuses.
 Print Assumptions C01_marshal_size.
 Print Assumptions C01_encode_error.
 Print Assumptions C01_no_panic.
+
+(* the executable oracles used by the counterexample search are the models *)
+From Radius Require Import Proofs.Oracles.
+Theorem C01_oracles : forall b s p,
+  parse b s = bind (spec_parse b s) (fun t => Ok (pkt_of_tuple t)) /\
+  parse_attrs b = spec_tlv_dec b /\
+  marshal p = spec_marshal (code p) (ident p) (auth p) (pattrs p).
+Proof. intros; repeat split; [apply parse_eq_spec | apply parse_attrs_eq_spec | apply marshal_eq_spec]. Qed.
+Print Assumptions C01_oracles.
